@@ -1021,11 +1021,12 @@ spf_domainspec(const char *domain, const char *token, char **domainspec, int *ip
 				free(*domainspec);
 				return SPF_PERMERROR;
 			}
-			*ip4cidr = strtol(c, &cend, 10);
-			if ((*ip4cidr > 32) || (!WSPACE(*cend) && (*cend != '/') && (*cend != '\0'))) {
+			const long l = strtol(c, &cend, 10);
+			if ((l < 0) || (l > 32) || (!WSPACE(*cend) && (*cend != '/') && (*cend != '\0'))) {
 				free(*domainspec);
 				return SPF_PERMERROR;
 			}
+			*ip4cidr = l;
 			c = cend;
 		} else {
 			c--;
@@ -1042,11 +1043,12 @@ spf_domainspec(const char *domain, const char *token, char **domainspec, int *ip
 				free(*domainspec);
 				return SPF_PERMERROR;
 			}
-			*ip6cidr = strtol(c, &cend, 10);
-			if ((*ip6cidr > 128) || !(WSPACE(*cend) || (*cend == '\0'))) {
+			const long l = strtol(c, &cend, 10);
+			if ((l < 0) || (l > 128) || !(WSPACE(*cend) || (*cend == '\0'))) {
 				free(*domainspec);
 				return SPF_PERMERROR;
 			}
+			*ip6cidr = l;
 		}
 	}
 	return 0;
